@@ -85,6 +85,25 @@ func c18Main(e *Env) (*res.Result, error) {
 				break
 			}
 		}
+		// a component that is an array of sized integers, used as a property and as a body
+		// (a component array decodes its items itself, an inline one is left to encoding/json)
+		if rapid.IntRange(0, 2).Draw(t, "sized_int_array") == 0 {
+			if d.Components == nil {
+				d.Components = &specgen.Components{}
+			}
+			if d.Components.Schemas == nil {
+				d.Components.Schemas = map[string]*specgen.Schema{}
+			}
+			format := rapid.SampledFrom([]string{"int32", "int32", "int64", ""}).Draw(t, "sized_int_format")
+			list := c.CompName("Ints", "sizedints")
+			d.Components.Schemas[list] = &specgen.Schema{Type: "array", Items: &specgen.Schema{Type: "integer", Format: format}}
+			prop := c.SafeName("counts", "sizedintsprop")
+			body := &specgen.Schema{Type: "object", Properties: map[string]*specgen.Schema{prop: {Ref: specgen.RefSchemas + list}, "n": {Type: "integer", Format: format}}, Required: []string{prop}}
+			base := "/" + c.PlainName("ints", "sizedintspath")
+			d.Paths[base] = &specgen.PathItem{Post: &specgen.Operation{RequestBody: &specgen.RequestBody{Required: true, Content: specgen.JSONContent(body)}, Responses: specgen.EmptyResponses()},
+				Put: &specgen.Operation{RequestBody: &specgen.RequestBody{Required: true, Content: specgen.JSONContent(&specgen.Schema{Ref: specgen.RefSchemas + list})}, Responses: specgen.EmptyResponses()}}
+			c.Tag("components:sized-integer-array")
+		}
 		bf := rapid.SampledFrom(forms).Draw(t, "baseform")
 		d.Servers = bf.Servers
 		cfg := inproc.Config{DoNotEdit: true, BasePath: bf.Flag}
